@@ -605,6 +605,13 @@ def get_current_registers(commands: List[T_Cmd]) -> Set[str]:
         if not isinstance(command, ICmd):
             continue
         for op in command.operands:
-            if isinstance(op, Register):
-                current_registers.add(str(op))
+            if isinstance(op, ArrayEntry):
+                sub_ops = [op.index]
+            elif isinstance(op, ArraySlice):
+                sub_ops = [op.start, op.stop]
+            else:
+                sub_ops = [op]
+            for sub_op in sub_ops:
+                if isinstance(sub_op, Register):
+                    current_registers.add(str(sub_op))
     return current_registers
